@@ -1,7 +1,7 @@
 """C01 registry entry."""
 
 SIM_UNIT = {"name": "sim", "pkg": "./internal/pkg/verifsim", "run": "^TestVerif_Sim_(Pipeline|Directed)$", "kind": "rapid", "toolchain": "go126",
-            "facets": ["C01/pipeline", "C06/pipeline", "C05/pipeline", "C08/pipeline", "C13/pipeline", "C14/pipeline", "C03/sim", "C17/gauges", "C15/pipeline"],
+            "facets": ["C01/pipeline", "C06/pipeline", "C05/pipeline", "C08/pipeline", "C13/pipeline", "C14/pipeline", "C03/sim", "C17/gauges", "C15/pipeline", "C16/pipeline"],
             "checks": (900, 20000), "shards": (8, 16), "timeout": (900, 3000)}
 
 PROP = {
